@@ -742,6 +742,20 @@ func sessCase(env *core.Env, idx int, prop string) *core.CaseResult {
 				if s.dead {
 					break
 				}
+				if r.Intn(3) == 0 {
+					// an idle session: the database is started, only read, and left like a crash once more
+					s.identity("in an idle session after restart (" + strings.TrimPrefix(s.tags[0], "restart-") + ")")
+					if s.dead || !s.close("testcase") {
+						break
+					}
+					s.log = append(s.log, "idle session; restart: crash-like-close")
+					s.base = readImage(s.path)
+					if !s.open(true) {
+						break
+					}
+					restarts++
+					res.Add("idle_sessions_between_restarts", 1)
+				}
 				s.identity("after restart (" + strings.TrimPrefix(s.tags[0], "restart-") + ")")
 				s.dml(2+r.Intn(8), "")
 			}
